@@ -7,6 +7,8 @@ observers of the mailboxes registered with the simulation (`simBoxes`).  Everyth
 by any interleaving, for every program and capacity.
 -/
 import NexoVerif.Lemmas.NetInit
+import NexoVerif.Lemmas.PoolLive
+import NexoVerif.Extracted
 
 namespace NexoVerif.Net
 set_option linter.unusedSimpArgs false
@@ -135,3 +137,66 @@ example : ∃ s, Reach exProg s ∧ report exProg s [0, 1] = .deadlock [(1, 1)] 
     rw [hfin] at this; simpa using this
 
 end NexoVerif.Net
+
+/-! ## The count `run()` reads (M-POOL)
+
+`report` above starts from the executor's in-flight count.  In the multi-threaded executor that count is kept per
+worker thread and published to a shared atomic; `Executor::run` reads the shared atomic as soon as it sees the pool
+idle.  M-POOL (Model/Pool.lean) is the idle-detection protocol at the granularity of its atomic steps, for any number
+of workers and every interleaving; whether a worker publishes its count before or after it can be seen as inactive is
+read from the source on every run. -/
+namespace NexoVerif.Pool
+
+/-- read from `run_local_worker`: the thread-local count is published at the top of the worker loop, before
+`try_set_worker_inactive`, and nowhere else -/
+def publishesFirst : Bool :=
+  Extracted.poolWorkerLoopHead.head? == some "update_msg_count" && Extracted.poolWorkerFlushes == 1
+
+/-- **worker_loop_shape** — the order of the protocol calls at the top of the worker loop and in `Executor::run`, and
+what the pool manager's operations do to `active_workers`, read from the source on every run: they are the step
+structure of M-POOL (`flush`, `deact`, park / `lastCheck`, `lastClear`, `lastUnpark`, park / search; `mRun`, `mCheck`,
+read of the count, `mPark`). -/
+theorem worker_loop_shape :
+    Extracted.poolWorkerLoopHead = ["update_msg_count", "try_set_worker_inactive", "park", "injector.is_empty",
+      "set_all_workers_inactive", "unpark_executor", "park", "begin_worker_search"] ∧
+    Extracted.poolRunShape = ["activate_worker", "loop", "pool_is_idle", "read_count", "return_unprocessed",
+      "return_ok", "park", "park_timeout"] ∧
+    Extracted.poolDeactKeepsLast = true ∧ Extracted.poolClearsAll = true ∧ Extracted.poolIdleIsZero = true ∧
+    Extracted.poolActivateSetsBitThenUnparks = true ∧ Extracted.poolSizeAtLeastOne = true ∧
+    publishesFirst = true := by decide
+
+/-- **count_read_by_run_is_exact** — in every execution of the protocol as the source has it, with any number of
+workers, when `run()` sees the pool idle the count it reads is the sum of every change made by every task so far:
+nothing is still local to a worker thread. -/
+theorem count_read_by_run_is_exact {n : Nat} {s s' : St} (hr : Reach n publishesFirst s)
+    (hs : step .mCheck s = some s') : s'.result = some s.total := by
+  have : publishesFirst = true := by decide
+  rw [this] at hr
+  exact count_read_is_exact hr hs
+
+/-- **late_publication_loses_a_count** — the code as found published the count after `try_set_worker_inactive`; the
+model then has a run (two workers) in which `run()` reads 0 while one message is in flight.  This is the defect
+repaired by the `fix:` commit 13cb01f; the schedule is `lateSchedule`. -/
+theorem count_published_late_is_lost :
+    (runLabels lateSchedule (St.init 2 false)).map (fun s => (s.result, s.total, s.tl 1)) = some (some 0, 1, 1) :=
+  late_publication_loses_a_count
+
+-- the hypotheses are satisfiable: a whole run with two workers in which a task sends a message and `run()` reads 1
+def okSchedule : List Label :=
+  [ .flush 0, .flush 1, .deact 0, .deact 1, .lastCheck 1, .lastClear 1, .lastUnpark 1, .mPark, .mCheck,
+    .mSpawn 1, .mRun 0, .mCheckFail, .wake 0, .takeInj 0 1, .pop 0, .finishTask 0 0 1, .idleLoop 0, .giveUp 0,
+    .flush 0, .deact 0, .lastCheck 0, .lastClear 0, .lastUnpark 0, .mPark ]
+
+example : ∃ s s', Reach 2 true s ∧ step .mCheck s = some s' ∧ s'.result = some 1 := by
+  have key : ((runLabels okSchedule (St.init 2 true)).bind (step .mCheck)).map (·.result) = some (some 1) := by decide
+  cases hrun : runLabels okSchedule (St.init 2 true) with
+  | none => rw [hrun] at key; cases key
+  | some s =>
+    rw [hrun] at key
+    cases hst : step .mCheck s with
+    | none => simp [hst] at key
+    | some s' =>
+      refine ⟨s, s', runLabels_reach _ _ _ Reach.init hrun, hst, ?_⟩
+      simpa [hst] using key
+
+end NexoVerif.Pool
